@@ -12,6 +12,12 @@ PROP = dict(
         dict(driver="mgr", binary="zrate", race=True, noshrink=True, quick=60, thorough=400, shard=30,
              monitors=["table_bounded", "lifetime_window_bound", "lifetime_penalty_honoured",
                        "host_window_bound_across_evictions", "host_penalty_across_evictions"]),
+        # concurrent first contact: k goroutines leave a spin barrier together and call Wait (one of them possibly
+        # AdjustOnFailure(429)) for a host that has no bucket yet; no eviction/cleanup can happen in these cases, so the
+        # lifetime window bound / penalty must hold for every schedule (catches a non-atomic check-then-insert in getBucket)
+        dict(driver="mgrconc", binary="zrate", noshrink=True, quick=24, thorough=300, shard=30,
+             monitors=["table_bounded", "lifetime_window_bound", "lifetime_penalty_honoured",
+                       "host_window_bound_across_evictions", "host_penalty_across_evictions"]),
     ],
     partial="IEEE-754: the model computes over Q where the code uses binary64 (tokens/rate compared within 1e-9, a grant decision "
             "within 1e-6 of the threshold is not compared); per-host bounds hold for a bucket's lifetime only - LFU eviction and the "
